@@ -691,9 +691,17 @@ class Analyzer:
         if b:
             return
         l = strip_casts(lhs)
+        poskey = None
         if l.get('k') == 'mem' and l['f'] == 'position':
+            poskey = expr_str(l)
+        elif l.get('k') == 'ref' and l.get('dk') == 'local' and self.u.ty(l.get('ty0', l['ty']))['c'] == 'int':
+            # a scalar local that carries a failure position (size_t position = buffer->offset; ... X.position = position)
+            tracked = any(f[0] in ('posin', 'posoff', 'poswhy') and f[1] == l['n'] for f in st.acc)
+            if tracked or (op == '=' and (self.position_value(a['r'], st)[0] is not None or self._mentions_position(a['r'], st))):
+                poskey = l['n']
+        if poskey is not None:
             # BND5: what is known about a failure position when it is stored; the verdict is given where it is published
-            key = expr_str(l)
+            key = poskey
             st.acc = frozenset(f for f in st.acc if not (f[0] in ('posin', 'posoff', 'poswhy') and f[1] == key))
             if op == '=':
                 kind, why = self.position_value(a['r'], st)
@@ -828,7 +836,7 @@ class Analyzer:
                         self.site('BND1', call, 'call %s needs %d readable byte(s) at %s.cur' % (cn, need, b), ok,
                                   'proved avail >= %s' % (av[0] if av[0] > NEG else 'nothing'), 'call:%s:%s' % (cn, b))
                     continue
-                if need is not None and record:
+                if need is not None and need > 0 and record:
                     pn = self.ptr_norm(a)
                     av = self.avail_of(pn, st) if pn else None
                     ok = av is not None and av[0] >= need
@@ -1040,6 +1048,18 @@ class Analyzer:
             self.tracked_ptrs.add(key)
         return True
 
+    def _pos_key(self, r):
+        r = strip_casts(r)
+        if r.get('k') == 'mem' and r.get('f') == 'position':
+            return expr_str(r)
+        if r.get('k') == 'ref' and r.get('dk') == 'local':
+            return r['n']
+        return None
+
+    def _mentions_position(self, r0, st):
+        k = self._pos_key(r0)
+        return k is not None and any(f[0] in ('posin', 'posoff', 'poswhy') and f[1] == k for f in st.acc)
+
     def position_value(self, r0, st):
         """('in', why) when the value is shown to be 0 or inside buffer B; (B, why) when it is B.offset without such a proof;
         (None, why) otherwise"""
@@ -1047,6 +1067,15 @@ class Analyzer:
         c = const_val(r0)
         if c is not None:
             return ('in' if c == 0 else None), 'constant %d' % c
+        k0 = self._pos_key(r)
+        if k0 is not None and self._mentions_position(r, st):
+            # a copy of a position that is already followed
+            if ('posin', k0) in st.acc:
+                return 'in', 'copy of %s' % k0
+            for f in st.acc:
+                if f[0] == 'posoff' and f[1] == k0:
+                    return f[2], 'copy of %s, not shown to be smaller than %s.length' % (k0, f[2])
+            return None, 'copy of %s' % k0
         bo = self.buf_field(r, 'offset')
         if bo:
             av = st.buf.get(bo, TOP)
@@ -1080,11 +1109,25 @@ class Analyzer:
         for x in walk(root):
             if x.get('k') == 'bin' and x.get('op') in ASSIGN_OPS:
                 stored.add(strip_casts(x['l']).get('id'))
+        # plain copies (v = position; X.position = position with X a local record) only hand the value on
+        copied = set()
+        for x in walk(root):
+            if x.get('k') == 'bin' and x.get('op') == '=':
+                l_ = strip_casts(x['l'])
+                r_ = strip_casts(x['r'])
+                base_ = l_
+                while base_.get('k') == 'mem' and not base_.get('arrow'):
+                    base_ = strip_casts(base_['b'])
+                if base_.get('k') == 'ref' and base_.get('dk') == 'local' and (l_.get('k') == 'ref' or l_.get('f') == 'position'):
+                    copied.add(r_.get('id'))
         for x in walk(root):
             x0 = x
             keys = []
-            if x0.get('k') == 'mem' and x0.get('f') == 'position' and x0.get('id') not in stored:
+            if x0.get('k') == 'mem' and x0.get('f') == 'position' and x0.get('id') not in stored and x0.get('id') not in copied:
                 keys.append(expr_str(x0))
+            elif x0.get('k') == 'ref' and x0.get('dk') == 'local' and x0.get('id') not in stored and x0.get('id') not in copied and \
+                    any(f[0] == 'poswhy' and f[1] == x0['n'] for f in st.acc):
+                keys.append(x0['n'])
             elif x0.get('k') == 'bin' and x0.get('op') == '=' and strip_casts(x0['r']).get('k') == 'ref' and \
                     self.u.ty(strip_casts(x0['r']).get('ty0', strip_casts(x0['r'])['ty']))['c'] == 'record':
                 rn = strip_casts(x0['r'])['n']
